@@ -1876,6 +1876,16 @@ namespace bloch::runtime {
             if (self.use_count() > 1)
                 obj->escapedDestructor = true;
         }
+        // Fields that refer to other objects are dropped first: their destructors may still reach
+        // this object (a destructor that stored 'this' in its child) and must find its qubits
+        // allocated - not already released and handed to the next declaration.
+        for (size_t i = 0; i < obj->fields.size(); ++i) {
+            if (obj->fields[i].type == Value::Type::Object ||
+                obj->fields[i].type == Value::Type::ObjectArray) {
+                Value dropped = std::move(obj->fields[i]);
+                obj->fields[i] = Value{};
+            }
+        }
         // Reset tracked qubits
         if (obj->cls) {
             for (size_t i = 0; i < obj->fields.size(); ++i) {
